@@ -12,7 +12,7 @@ use crate::refmodel::{p, Hid, Model, Param};
 use serde_json::{json, Map, Value};
 use std::sync::mpsc;
 
-pub const NCALLS: usize = 16;
+pub const NCALLS: usize = 18;
 
 struct Keys {
     a_hid: Hid,
@@ -53,6 +53,8 @@ pub fn call_name(i: usize) -> &'static str {
         "keygen A with fresh aux buffer",
         "sign A2@5 m0 (same seed as A, other lower-level parameters)",
         "keygen A2 (same seed as A, other top-level Winternitz parameter)",
+        "sign A@15 m0 (bytes API, last leaf of the key)",
+        "sign A@15 m0 (SigningKey, last leaf of the key)",
     ][i]
 }
 
@@ -138,6 +140,9 @@ pub fn exec_call(seed: u64, i: usize) -> Vec<u8> {
             let p2 = vec![p(8, 2), k.a_params[1]];
             enc_kg(lib_api::keygen(k.a_hid, &p2, &k.a_seed, None), None)
         }
+        // the last leaf: the successor is the wiped key on every entry point
+        16 => enc_sign(&lib_api::sign(k.a_hid, &ma.make_blob(15, &k.a_params, &k.a_seed), &m0, Cb::Accept, None, Entry::Bytes)),
+        17 => enc_sign(&lib_api::sign(k.a_hid, &ma.make_blob(15, &k.a_params, &k.a_seed), &m0, Cb::Accept, None, Entry::Key)),
         _ => vec![],
     }
 }
@@ -231,6 +236,9 @@ fn entry_point_agreement(pr: &[Vec<u8>]) -> Vec<Viol> {
     }
     if pr[2] != pr[7] {
         v.push(Viol::new("C09:entry-points-disagree:aux", "signing with a valid aux buffer yields a different signature/successor than without"));
+    }
+    if pr.len() > 17 && pr[16] != pr[17] {
+        v.push(Viol::new("C09:entry-points-disagree:SigningKey-last-leaf", "at the last leaf the in-memory SigningKey ends in a different state / signature than the byte-level function hands to its callback"));
     }
     // keygen with and without aux give the same key pair (prefix of the encoding)
     if pr[0].len() > pr[13].len() || pr[0][..] != pr[13][..pr[0].len()] {
@@ -448,7 +456,7 @@ pub fn run_c09(ctx: &Ctx) -> (&'static str, Map<String, Value>) {
     m.insert("free_running_calls_SAMPLING".into(), json!(free_calls));
     m.insert("structural_side_condition_holds".into(), json!(clean));
     m.insert("alphabet".into(), json!((0..NCALLS).map(call_name).collect::<Vec<_>>()));
-    m.insert("rule".into(), json!(format!("every sequence of calls over a 16-call alphabet up to depth {} (state = the history, no merging), each executed call compared with the pristine result of the same call from a fresh process; all 20 interleavings of two OS threads x three calls for {} call assignments under a baton scheduler", depth, triples.len() * triples.len())));
+    m.insert("rule".into(), json!(format!("every sequence of calls over an 18-call alphabet up to depth {} (state = the history, no merging), each executed call compared with the pristine result of the same call from a fresh process; all 20 interleavings of two OS threads x three calls for {} call assignments under a baton scheduler", depth, triples.len() * triples.len())));
     m.insert("exhaustive".into(), json!(true));
     ("model_checking", m)
 }
